@@ -83,6 +83,10 @@ class FaultSchedule(Entity):
         for fault, handle in zip(self._faults, self._handles, strict=False):
             fault_events = fault.generate_events(ctx)
             handle._events = fault_events
+            if handle.cancelled:
+                # Cancelled before the simulation was built: nothing of it may fire.
+                for event in fault_events:
+                    event.cancel()
             all_events.extend(fault_events)
             logger.debug(
                 "[%s] Fault %s generated %d event(s)",
